@@ -589,6 +589,10 @@ class RenameDetector:
             return False
         assert change.old.sha is not None
         assert change.new.sha is not None
+        if S_ISGITLINK(change.old.mode) or S_ISGITLINK(change.new.mode):
+            # Git links name commits of another repository: there is no
+            # content here to compare
+            return False
         old_obj = self._store[change.old.sha]
         new_obj = self._store[change.new.sha]
         return _similarity_score(old_obj, new_obj) < self._rewrite_threshold
